@@ -122,10 +122,11 @@ type jobResult struct {
 	EngineError string           `json:"engineError,omitempty"`
 	Children    []job            `json:"children,omitempty"`
 	ByKind      map[string]int64 `json:"byKind"`
+	Metrics     map[string]int64 `json:"metrics"`
 }
 
 func newJobResult() *jobResult {
-	return &jobResult{Outcomes: map[string]int64{}, ByKind: map[string]int64{}}
+	return &jobResult{Outcomes: map[string]int64{}, ByKind: map[string]int64{}, Metrics: map[string]int64{}}
 }
 
 func (a *jobResult) merge(b *jobResult) {
@@ -145,6 +146,11 @@ func (a *jobResult) merge(b *jobResult) {
 	}
 	for k, v := range b.ByKind {
 		a.ByKind[k] += v
+	}
+	for k, v := range b.Metrics {
+		if v > a.Metrics[k] {
+			a.Metrics[k] = v
+		}
 	}
 	a.Found = append(a.Found, b.Found...)
 	a.Capped = a.Capped || b.Capped
@@ -176,6 +182,11 @@ func (e *explorer) explore(prefix []int) {
 	e.res.Execs++
 	e.res.Steps += int64(s.Steps)
 	e.res.Nodes += int64(len(s.Points) - len(prefix))
+	for k, v := range s.Metrics {
+		if v > e.res.Metrics[k] {
+			e.res.Metrics[k] = v
+		}
+	}
 	if len(s.Points) > e.res.MaxPoints {
 		e.res.MaxPoints = len(s.Points)
 	}
@@ -327,6 +338,7 @@ type Summary struct {
 	Capped              bool
 	Found               []foundV
 	Scs                 []*Scenario
+	Metrics             map[string]int64
 }
 
 // IsWorker reports whether this process was started as a worker.
@@ -488,7 +500,7 @@ func Explore(r *ev.Run, scs []*Scenario, cfg Config) *Summary {
 			ev.EngineError("%s", engineErr)
 		}
 	}
-	sum := &Summary{Execs: total.Execs, Steps: total.Steps, Nodes: total.Nodes + int64(len(scs)), Outcomes: total.Outcomes, PerScenario: per, Capped: total.Capped, Found: total.Found, Scs: scs}
+	sum := &Summary{Execs: total.Execs, Steps: total.Steps, Nodes: total.Nodes + int64(len(scs)), Outcomes: total.Outcomes, PerScenario: per, Capped: total.Capped, Found: total.Found, Scs: scs, Metrics: total.Metrics}
 	// report findings (first per scenario+signature)
 	dedup := map[string]bool{}
 	for _, f := range total.Found {
@@ -518,6 +530,9 @@ func Report(r *ev.Run, _ []*Scenario, sum *Summary) {
 		ps[sc.Name] = map[string]any{"executions": p.Execs, "steps": p.Steps, "tree_nodes": p.Nodes, "distinct_outcomes": len(p.Outcomes), "max_choice_points": p.MaxPoints, "max_preemptions_used": p.MaxPreempt, "bounds": sc.Bounds, "capped": p.Capped}
 	}
 	r.Set("scenarios", ps)
+	if len(sum.Metrics) > 0 {
+		r.Set("max_metrics", sum.Metrics)
+	}
 	r.Set("states_meaning", "distinct nodes of the choice tree (distinct choice-sequence prefixes) visited; transitions = scheduler steps of the real code executed; every execution is an execution of the compiled go-coap code, so traces_validated_against_impl = executions")
 }
 
